@@ -171,7 +171,7 @@ func genWildDoc(t *rapid.T, label string) wildDoc {
 	if doc.NodeList != nil {
 		// small id pool so that edges and roots often refer to nodes (and sometimes dangle)
 		for _, n := range doc.NodeList.Nodes {
-			n.Id = rapid.SampledFrom([]string{"a", "b", "c", "d"}).Draw(t, label+".id")
+			n.Id = rapid.SampledFrom([]string{"a", "b", "c", "d", "a", "b", "protobom-auto--000000001", "protobom--x", "protobom-", "protobom", "protobom-node-auto--y", "protobom-x"}).Draw(t, label+".id")
 		}
 	}
 	if rapid.Bool().Draw(t, label+".serializable") {
